@@ -44,6 +44,8 @@ AccInit == [bad |-> {},          \* <<phase, op>> : the API answered badly (5xx 
             dup |-> FALSE,       \* a unit-phase request digest was repeated for the same operation
             stopped |-> FALSE, ctrlc |-> FALSE, crashed |-> FALSE,
             afterStop |-> {},    \* <<thread, n>> sends after the stop request, unit phases
+            limited |-> FALSE,   \* the failure limit was reached (ExecutionControl.count_failure logged limit = TRUE)
+            afterLimit |-> {},   \* <<thread, n>> sends after the failure limit was reached
             reqAfterStopStateful |-> 0,
             scsAfterStopUnit |-> 0,
             putAfterStop |-> {}, \* <<thread, n>> ScenarioStarted events enqueued after the stop request
@@ -88,8 +90,10 @@ Step ==
                                      /\ x.t - acc.times[Len(acc.times) - Hdr.rateL + 1] < Hdr.rateW - RateJitter)]
             /\ UNCHANGED mon
        [] x.e = "SEND" ->
-            /\ acc' = [acc EXCEPT !.afterStop = IF acc.stopped THEN @ \cup {<<x.thr, CountThr(@, x.thr) + 1>>} ELSE @]
+            /\ acc' = [acc EXCEPT !.afterStop = IF acc.stopped THEN @ \cup {<<x.thr, CountThr(@, x.thr) + 1>>} ELSE @,
+                                  !.afterLimit = IF acc.limited THEN @ \cup {<<x.thr, CountThr(@, x.thr) + 1>>} ELSE @]
             /\ UNCHANGED mon
+       [] x.e = "COUNT" -> acc' = [acc EXCEPT !.limited = @ \/ x.limit] /\ UNCHANGED mon
        [] x.e = "QPUT" ->
             /\ acc' = [acc EXCEPT !.putAfterStop = IF acc.stopped /\ x.k = "ScS" THEN @ \cup {<<x.thr, CountThr(@, x.thr) + 1>>} ELSE @]
             /\ UNCHANGED mon
@@ -154,7 +158,9 @@ LaterPhasesSkipped == (AtEnd /\ acc.limitAt # 0 /\ ~Interrupted) =>
 (* no scenario is delivered by a unit phase after the stop request; no thread announces more than the one scenario it
    may have been starting when the request arrived *)
 NoScenarioAfterStop == acc.scsAfterStopUnit = 0 /\ \A x \in acc.putAfterStop : x[2] <= 1
+(* the engine's own decision to stop (failure limit reached) binds the workers like an external stop request *)
 AtMostOneSendAfterStop == /\ \A x \in acc.afterStop : x[2] <= 1
+                          /\ \A x \in acc.afterLimit : x[2] <= 1
                           /\ acc.reqAfterStopStateful <= 1
 UniqueInputs == Hdr.unique => ~acc.dup
 (* any rateL + 1 consecutive requests span at least one window, up to the stated scheduling jitter (timing, not logic:
